@@ -556,6 +556,17 @@ func (h *hist) opDestruct(reg *ac.Registry, pairs []pairView) {
 	if len(liveReg) > 0 && h.pick(4) > 0 {
 		t = liveReg[h.pick(len(liveReg))]
 	}
+	if _, ok := reg.ByERC20[ac.AddrKey(t.Addr.Hex())]; ok && h.pick(4) != 0 {
+		// first aggregate one more coin into the pair that is about to lose its contract (its first denomination is the
+		// voucher "aggregate/0x...", coins like "acoin" sort before it): the clean-up then has a multi-denomination pair
+		base := h.pickCoin(reg, 100)
+		md := metadata(base, 0, "", 0, common.Address{})
+		h.gov("add-coin", fmt.Sprintf("add-coin base=%s variant=0 name=%q contract=%s (before selfdestruct)", base, md.Name, t.Addr.Hex()), reg, aggtypes.NewAddCoinProposal("t", "d", md, t.Addr.Hex()))
+		if h.ended {
+			return
+		}
+		reg = h.registry(h.n.Ctx())
+	}
 	u := h.users[h.pick(len(h.users))]
 	tx, err := h.n.EthTx(u, &t.Addr, nil, 500000, ac.KillSelector)
 	if err != nil {
@@ -576,7 +587,7 @@ func (h *hist) opDestruct(reg *ac.Registry, pairs []pairView) {
 	h.r.Eval(reg.Digest()+"|"+desc, true)
 	h.after("selfdestruct", desc, h.n.Ctx(), nil, true)
 	// often clean up right away (otherwise a later conversion picks the pair by chance)
-	if !h.ended && h.pick(2) == 0 {
+	if !h.ended && h.pick(4) != 0 {
 		reg2 := h.registry(h.n.Ctx())
 		for _, pv := range sortedPairs(reg2) {
 			if common.HexToAddress(pv.Pair.ERC20Address) != t.Addr {
